@@ -144,10 +144,20 @@ fn chunk_service(ci: usize, types: &[Ty]) -> Def {
             pre: vec![],
             name: format!("f{}", (b'a' + ti as u8) as char),
             id: id.clone(),
-            body: gen::FnBody::Full {
-                args: part(gen::TyOrInline::Ty(t.clone())),
-                ok: part(gen::TyOrInline::Struct(vec![], StructBody { fields: vec![field("a", 1, true, t.clone()), field("b", 2, false, t.clone())], fallback: fb("more") })),
-                err: part(gen::TyOrInline::Enum(vec![], EnumBody { variants: vec![var("E", 1, Some(t.clone())), var("F", 2, None)], fallback: None })),
+            // every combination of parts occurs (the parts of one function refer to types that no
+            // other function uses)
+            body: {
+                let args = part(gen::TyOrInline::Ty(t.clone()));
+                let ok = part(gen::TyOrInline::Struct(vec![], StructBody { fields: vec![field("a", 1, true, t.clone()), field("b", 2, false, t.clone())], fallback: fb("more") }));
+                let err = part(gen::TyOrInline::Enum(vec![], EnumBody { variants: vec![var("E", 1, Some(t.clone())), var("F", 2, None)], fallback: None }));
+                match ti % 6 {
+                    0 => gen::FnBody::Full { args, ok, err },
+                    1 => gen::FnBody::Full { args: None, ok: None, err },
+                    2 => gen::FnBody::Full { args, ok: None, err: None },
+                    3 => gen::FnBody::Full { args: None, ok, err },
+                    4 => gen::FnBody::Full { args, ok: None, err },
+                    _ => gen::FnBody::Ok(gen::TyOrInline::Struct(vec![], StructBody { fields: vec![field("a", 1, false, t.clone())], fallback: None })),
+                }
             },
         }));
         items.push(gen::Item::Ev(gen::Event {
